@@ -345,7 +345,9 @@ def reg(pid, **kw):
 
 
 reg("C02", gen=lambda rng, n, tier: F.c02(rng, n) + F.c02_big(rng), budget=(4000, 40000), absolute=False,
-    oracle=oracle_same("general", "fast", "the fast lane and the general path disagree on the same options and input"),
+    oracle=lambda cases, impl, ctx: tuple(map(lambda a, b: a + b,
+        oracle_same("general", "fast", "the fast lane and the general path disagree on the same options and input")(cases, impl, ctx),
+        oracle_same("general", "cli", "the binary (fast lane, real 64 KiB reader) and the general path disagree")(cases, impl, ctx))),
     nontrivial=lambda c, m: c.entry == "fast" and m[0] == "0" and len(m[1]) > 1,
     rule="fast-eligible option sets (1-byte delimiter; bounds ascending/descending/repeated/negative/mixed/open/"
          "formatted/with fallbacks; -j -s -z -t, --fallback-oob) x records with more and fewer fields than the "
